@@ -54,7 +54,7 @@ InitWith(cfg) ==
         /\ orders = <<>> /\ log = <<>> /\ bad = {}
         /\ sm = [n |-> 0, maxEv |-> 0, maxJob |-> 0, lastJobStart |-> 0, lastEvIdx |-> 0, ran |-> {}]
         /\ events = UNION {{InitEvents(s)[k] : k \in 1..Len(D.evs[s])} : s \in Srcs}
-        /\ sched = {[id |-> k, when |-> D.jobs[k].when, at |-> 0] : k \in 1..Len(D.jobs)}
+        /\ sched = {[id |-> k, when |-> D.jobs[k].when, at |-> 0, late |-> FALSE] : k \in 1..Len(D.jobs)}
 
 LoopBlocked == lp.pc \in {"sched_wait", "push_blocked", "events_wait", "drain_wait"}
 AllDone(S) == \A i \in S : TaskDone(tasks[i])
@@ -154,7 +154,7 @@ Apply(st, effs, now) ==
                                            !.events = @ \cup {[id |-> st.nextId, src |-> e.src, when |-> now]},
                                            !.nextId = @ + 1]
            [] e.op = "sched" -> [st EXCEPT !.heap = HeapPush(@, [when |-> now + e.delta, prog |-> e.prog, id |-> st.njobs]),
-                                           !.sched = @ \cup {[id |-> st.njobs, when |-> now + e.delta, at |-> st.at]},
+                                           !.sched = @ \cup {[id |-> st.njobs, when |-> now + e.delta, at |-> st.at, late |-> e.delta < 0]},
                                            !.njobs = @ + 1]
            [] e.op = "raise" -> [st EXCEPT !.raised = TRUE]
            [] e.op = "stop"  -> [st EXCEPT !.stop = TRUE]
@@ -192,7 +192,7 @@ RunSegment(ti, i) ==
         /\ sm' = [n |-> sm.n + 1,
                   maxEv |-> IF t.kind = "ev" THEN Max2(sm.maxEv, t.ev.when) ELSE sm.maxEv,
                   maxJob |-> IF t.kind = "job" THEN Max2(sm.maxJob, t.ev.when) ELSE sm.maxJob,
-                  lastJobStart |-> IF t.kind = "job" /\ seg = 1 THEN t.ev.when ELSE sm.lastJobStart,
+                  lastJobStart |-> IF t.kind = "job" /\ seg = 1 /\ ~(\E j \in sched : j.id = t.jid /\ j.late) THEN t.ev.when ELSE sm.lastJobStart,
                   lastEvIdx |-> IF t.kind = "ev" THEN sm.n + 1 ELSE sm.lastEvIdx,
                   ran |-> IF t.kind = "job" /\ seg = 1 THEN sm.ran \cup {t.jid} ELSE sm.ran]
         /\ bad' = bad
@@ -203,7 +203,8 @@ RunSegment(ti, i) ==
              \* C13: a job never runs before its time, jobs start in non-decreasing scheduled-time order, each once,
              \*      after all events with an earlier time and before any event with a later time
              \cup (IF t.kind = "job" /\ clock < t.ev.when THEN {"C13_NotEarly"} ELSE {})
-             \cup (IF t.kind = "job" /\ seg = 1 /\ (t.ev.when < sm.lastJobStart \/ t.ev.when < sm.maxEv) THEN {"C13_Ordered"} ELSE {})
+             \cup (IF t.kind = "job" /\ seg = 1 /\ ~(\E j \in sched : j.id = t.jid /\ j.late)
+                      /\ (t.ev.when < sm.lastJobStart \/ t.ev.when < sm.maxEv) THEN {"C13_Ordered"} ELSE {})
              \cup (IF t.kind = "ev" /\ t.ev.when < sm.maxJob THEN {"C13_Ordered"} ELSE {})
              \cup (IF t.kind = "job" /\ seg = 1 /\ t.jid \in sm.ran THEN {"C13_AtMostOnce"} ELSE {})
              \* C03: an order is never filled by a bar whose time is <= the clock at submission
